@@ -38,12 +38,14 @@ func verifFinalize(p *Pipeline, e *Event, notifyInput, backEvent bool) {
 
 var (
 	verifCommitMu  sync.RWMutex
-	verifCommitObs func(p *Pipeline, sourceID uint64, stream string, eventSeq, commitSeq uint64)
+	verifCommitObs func(p *Pipeline, sourceID uint64, stream string, eventSeq uint64, loadCommitSeq func() uint64)
 )
 
 // VerifSetStreamCommitObserver installs a callback invoked right after
-// stream.commit in Pipeline.finalize with the stream's commitSeq as it is then.
-func VerifSetStreamCommitObserver(fn func(p *Pipeline, sourceID uint64, stream string, eventSeq, commitSeq uint64)) {
+// stream.commit in Pipeline.finalize; loadCommitSeq reads the stream's
+// commitSeq (the observer reads it under its own lock so that reads and
+// bookkeeping are in one order).
+func VerifSetStreamCommitObserver(fn func(p *Pipeline, sourceID uint64, stream string, eventSeq uint64, loadCommitSeq func() uint64)) {
 	verifCommitMu.Lock()
 	verifCommitObs = fn
 	verifCommitMu.Unlock()
@@ -54,7 +56,8 @@ func verifAfterStreamCommit(p *Pipeline, e *Event) {
 	fn := verifCommitObs
 	verifCommitMu.RUnlock()
 	if fn != nil && e.stream != nil {
-		fn(p, uint64(e.stream.streamID), string(e.stream.name), e.SeqID, e.stream.commitSeq.Load())
+		st := e.stream
+		fn(p, uint64(st.streamID), string(st.name), e.SeqID, st.commitSeq.Load)
 	}
 }
 
